@@ -1,4 +1,4 @@
-SOURCE_COMMITS = ['2a82dd5', '23b3277', 'd11a4bc', '0ff938d', 'f5c3f96', '4d27d01', '24cde5a', 'eabce87', '6660817']
+SOURCE_COMMITS = ['2a82dd5', '23b3277', 'd11a4bc', '0ff938d', 'f5c3f96', '4d27d01', '24cde5a', 'eabce87', '6660817', '6b4eb47']
 NOTES = ('Exit codes of ./check: 0 all obligations discharged; 1 violation (VIOLATION line); '
          '2 undecided (solver unknown / extraction failure / contract binding lost); 3 checker crash. '
          'See DESIGN.md.')
@@ -130,4 +130,12 @@ CLAIMED = {
         'clipped delta; ignore_grads_haiku returns named entries equal to the input and the rest as the base optimizer.',
    note='Trusted: sum lemmas for "sums to 1", exp > 0, haiku map/dict copies, argmin first minimum; HypCluster loop bodies executed for '
         'K = 3 / K = 2 clusters (uniform in the cluster index); _cluster_losses: native driver only.'),
+ 'C14': dict(
+   text='Per-metric proof in an index-array model: every reduction records what it reduced and the recorded per-position / per-class '
+        'expression is compared pointwise with an independent definition: target weights, token accuracy with logits mask (first '
+        'argmax), top-k as (order relation of the sort = documented order, ties to the lowest index) + (kept prefix = max(0, min(k, n))), '
+        'OOV = target is ONE OF the values, counts / length / truncation (any vs all), cross entropy as one-hot sum, confusion matrix '
+        'one count at (target, argmax), per-domain restriction, per-position variants.',
+   note='Trusted: argmax first maximum, argsort stable ascending, slicing/reversal, one_hot, log_softmax, .at[].set; tuples of masked / '
+        'oov values of length 0..2. Not covered: extreme magnitudes; composition of the sequence cross-entropy metrics (native driver).'),
 }
